@@ -36,6 +36,9 @@
      step = ( n0 n<e> )                     Do fails with injected error e
           | ( n1 )                          the context is cancelled inside RoundTrip, Do fails with its error
           | ( n2 n<e> n<status> )           the validator rejects the response with error e
+          | ( n2 n<e> n<status> n<open> )   open > 0: the rejected response is a stream the server keeps OPEN - its body
+                                            does not end: a Read of it (after a few bytes when open = 2) blocks until the
+                                            body is closed (the Read then fails) or the harness gives up (0.9 s)
           | ( n3 x<body> ending chunks n<with last> n<status> )
                                             accepted response; ending = (n0) EOF | (n1 n<e>) read error e
                                             | (n2 n<how>) cancellation inside Read; chunks, with last: harness only
@@ -47,6 +50,10 @@
      item = ( n0 ( x<header value> ... ) (opt n<body generation>) )    a request at the RoundTripper
           | ( n1 x<LastEventID> x<Type> x<Data> )                     an event at a SubscribeToAll callback
           | ( n2 ret z<duration> )                                    OnRetry(err, duration)
+          | ( n3 n<reads> n<stuck> )    at the end of a call's items, one per OPEN rejected body handed out in the call:
+                                        how many Read calls were made on it before Connect returned, and whether Connect
+                                        was still running 0.9 s after the response had been handed to it (the harness
+                                        then releases the body, so that the call ends and its return value is observed)
      ret  = (n0) nil | (n1) the context's error | ( n2 n<reason> err )  *ConnectionError
      err  = (n0) io.EOF | (n1) io.ErrUnexpectedEOF | (n2 n<e>) injected | (n3) context | (n4) ErrNoGetBody | (n5) too long
      result = () Connect was still running when the script ran out | ( ret )
@@ -128,22 +135,37 @@ Fixpoint timed_waits (tr : list titem) : list val :=
       end
   end.
 
-Definition enc_out (tr : list titem) (r : option cret) : list val :=
-  [VL (map enc_titem tr); vopt enc_cret r; VL (timed_waits tr)].
+(* the report on the open body of a rejected response.  A rejection ends Connect (Connect.v: [ARejected] returns), so
+   the only rejected response of a call is the one of its LAST request; client_connection.go:246-248 returns from the
+   validator's error without touching res.Body (the deferred Close apart): no Read, and nothing to wait for *)
+Definition is_trequest (i : titem) : bool := match i with TRequest _ _ => true | _ => false end.
+Definition open_items (script : list val) (tr : list titem) : list val :=
+  match length (filter is_trequest tr) with
+  | O => []
+  | S k =>
+      let st := nth k script (VL []) in
+      if N.eqb (as_n (nth_val 0 st)) 2 && negb (N.eqb (as_n (nth_val 3 st)) 0)
+      then [VL [VN 3; VN 0; VN 0]] else []
+  end.
+
+Definition enc_out (script : list val) (tr : list titem) (r : option cret) : list val :=
+  [VL (map enc_titem tr ++ open_items script tr); vopt enc_cret r; VL (timed_waits tr)].
 
 (* the scripts of an input: the first call's, then one per further call *)
 Definition dec_scripts (i : val) : list (list step) :=
   map dec_step (as_l (nth_val 1 i)) :: map (fun v => map dec_step (as_l v)) (as_l (nth_val 2 i)).
+Definition raw_scripts (i : val) : list (list val) := as_l (nth_val 1 i) :: map as_l (as_l (nth_val 2 i)).
 
 Definition run_connect (i : val) : val :=
   let cfg := dec_ccfg (nth_val 0 i) in
   match as_l i with
   | _ :: _ :: _ :: _ =>
-      match connect_runs cfg (dec_scripts i) with
-      | (tr, r) :: outs => VL (enc_out tr r ++ [VL (map (fun o => VL (enc_out (fst o) (snd o))) outs)])
+      match combine (raw_scripts i) (connect_runs cfg (dec_scripts i)) with
+      | (sc, (tr, r)) :: outs =>
+          VL (enc_out sc tr r ++ [VL (map (fun o => VL (enc_out (fst o) (fst (snd o)) (snd (snd o)))) outs)])
       | [] => VL []
       end
-  | _ => let '(tr, r) := connect_run cfg (map dec_step (as_l (nth_val 1 i))) in VL (enc_out tr r)
+  | _ => let '(tr, r) := connect_run cfg (map dec_step (as_l (nth_val 1 i))) in VL (enc_out (as_l (nth_val 1 i)) tr r)
   end.
 
 (* ---- the oracles ------------------------------------------------------------------------------
@@ -222,6 +244,13 @@ Definition after_attempt (mask : tag) (cfg : ccfg) (b : backoff) (items : list v
   | None => (returns items err) || granted tt
   end.
 
+(* the report ( n3 reads stuck ) on an open rejected body, if one is next: was Connect stuck on it, and the other items *)
+Definition open_report (items : list val) : bool * list val :=
+  match items with
+  | it :: rest => if N.eqb (as_n (nth_val 0 it)) 3 then (as_bool (nth_val 2 it), rest) else (false, items)
+  | [] => (false, [])
+  end.
+
 Fixpoint walk (mask : tag) (cfg : ccfg) (b : backoff) (steps : list step) (items : list val) (result : val)
               (j : nat) (lid : bytes) (x : Z) (n : nat) {struct steps} : bool :=
   let chk := fun (t : tag) (c : bool) => if tag_eqb t mask then c else true in
@@ -248,7 +277,12 @@ Fixpoint walk (mask : tag) (cfg : ccfg) (b : backoff) (steps : list step) (items
               chk T10 (val_eqb it (enc_request want_hdr want_body)) &&
               match st_attempt st with
               | ACtxErr => ends_with items1 RCtx
-              | ARejected e => ends_with items1 (RConn RsValidate (CE (EReader e)))
+              | ARejected e =>
+                  (* C11: "returns at once without retrying when the response validator fails": the verdict is the
+                     return value, no request follows, and when the rejected body is an open stream Connect did not
+                     wait for it - how often that body was read is not the property's business *)
+                  let '(stuck, items2) := open_report items1 in
+                  chk T11 (negb stuck) && ends_with items2 (RConn RsValidate (CE (EReader e)))
               | ATransportErr e =>
                   after_attempt mask cfg b items1 result lid x n (RConn RsConnect (CE (EReader e)))
                     (fun items' lid' x' n' => walk mask cfg b rest items' result (S j) lid' x' n')
